@@ -44,10 +44,11 @@ def extract_atom(
     :return: the PDDL expression.
     """
     if expression.func == Float:
+        rounded_value = round(float(expression), decimal_digits)
         formatted_expression = (
             format(expression, f".{decimal_digits}f")
-            if not round(float(expression), decimal_digits).is_integer()
-            else f"{int(expression)}"
+            if not rounded_value.is_integer()
+            else f"{int(rounded_value)}"
         )
         if should_remove_trailing_zeros:
             return formatted_expression if float(formatted_expression) != 0 else None
